@@ -1,31 +1,12 @@
 #!/usr/bin/env python3
-"""Writes MANIFEST.json from the table below (kept in one place so it is always schema-valid)."""
-import json, os
+"""Writes MANIFEST.json from tools/manifest.d/<ID>.json fragments (keys: text, note, technique, design; optional
+quick_cmd/thorough_cmd overrides) and tools/not_applicable.json; always schema-valid."""
+import glob, json, os
 HERE = os.path.dirname(os.path.dirname(os.path.abspath(__file__)))
-CHECKS = {
- "C05": dict(
-   text="Machine-checked proof (Coq 8.16.1) over a Gallina model REGENERATED on every run from digi_id.py by a fail-closed "
-        "ast translator: decode(encode a) = a mod field-width for all integer arguments (round trip, truncation, no leak, "
-        "tag exclusivity) and recomposition of every tagged 32-bit word, for all six encoders; tie additionally checked by "
-        "evaluating model (vm_compute) and numba kernels on the same generated cases under all integer dtypes, and by a "
-        "complete sweep of the implementation over every field space.",
-   note="Trusted: Coq kernel+vm_compute; translator rules (numba integer semantics = Z after final mask/cast); "
-        "theorems are axiom-free (Print Assumptions: closed). Inputs restricted to 64-bit representable integers.",
-   technique="Coq proof over regenerated model (ast->Gallina) + vm_compute correspondence",
-   design="DESIGN.md §4 C05"),
- "C08": dict(
-   text="Machine-checked proof (Coq 8.16.1): the gid kernels (ast->Gallina) and the COMPLETE geometry tables are regenerated from "
-        "the working tree on every run; complete computations inside Coq show get_emc_gid / get_mdc_gid enumerate the documented "
-        "element order onto 0..6239 / 0..6795 (density, range, monotone order), that the tables list exactly those elements in gid "
-        "order, that the maps are mutually inverse over all real elements, and (with the C05 codec lemmas) that the gid parsed from a "
-        "digi identifier equals the gid of its fields. Python glue (parse_*) is tied by an exhaustive correspondence on all elements.",
-   note="Trusted: Coq kernel+vm_compute; translators (py2coq_bits, gen_geom incl. numpy.load of the .npz); hand model of parse_* "
-        "glue checked exhaustively; theorems axiom-free.",
-   technique="Coq proof (complete finite computation) over regenerated kernels+tables + exhaustive correspondence",
-   design="DESIGN.md §4 C08"),
-}
-NOT_YET = {}
 def main():
+    CHECKS = {}
+    for f in sorted(glob.glob(os.path.join(HERE, "tools", "manifest.d", "C*.json"))):
+        CHECKS[os.path.basename(f)[:-5]] = json.load(open(f))
     props = [json.loads(l) for l in open(os.path.join(HERE, "properties.jsonl"))]
     na_file = os.path.join(HERE, "tools", "not_applicable.json")
     na = json.load(open(na_file)) if os.path.exists(na_file) else {}
@@ -36,8 +17,8 @@ def main():
             c = CHECKS[pid]
             checks.append({
               "property_id": pid,
-              "quick_cmd": f"/venv/bin/python tools/check.py {pid} --tier quick",
-              "thorough_cmd": f"/venv/bin/python tools/check.py {pid} --tier thorough",
+              "quick_cmd": c.get("quick_cmd", f"/venv/bin/python tools/check.py {pid} --tier quick"),
+              "thorough_cmd": c.get("thorough_cmd", f"/venv/bin/python tools/check.py {pid} --tier thorough"),
               "evidence_file": f"/verif/evidence/{pid}.json",
               "replay_cmd_template": f"/venv/bin/python tools/check.py {pid} --replay {{path}}",
               "engine": "coq-proof",
